@@ -12,7 +12,7 @@ import os
 import random
 from fractions import Fraction
 
-from . import core, fncases, values
+from . import core, suite, fncases, values
 from . import formula as F
 from .values import enc
 
@@ -154,6 +154,9 @@ def main(tier, replay=None):
             y = values.enc_num(Fraction(rng.randint(-40, 40), rng.choice([1, 2, 4])))
             cases.append({'f': rng.choice(['ATAN2', 'LOG', 'POWER']), 'args': [v, y]})
     obs = fncases.observe(lib, cases, literal=False)
+    so = suite.observations({'ABS','SQRT','EXP','LN','LOG','LOG10','POWER','SIN','COS','TAN','COT','ASIN','ACOS','ATAN','ACOT','SINH','COSH','TANH','ASINH','ACOSH','ATANH','ACOTH','ATAN2','RADIANS','DEGREES'}, len(obs) + 1)   # the same functions as the repository's own tests call them
+    run.extra['calls_from_repository_tests'] = len(so)
+    obs += so
     n_class = len(obs)
     env0 = F.empty_env()
     # identities
